@@ -1,5 +1,10 @@
 package auth
 
-import "strings"
+import (
+	"net/http"
+	"strings"
+)
 
 func contains(s, sub string) bool { return strings.Contains(s, sub) }
+
+type cookieT = http.Cookie
